@@ -267,8 +267,45 @@ theorem nl_not_mem_replace (s : Str) : '\n' ∉ replaceChar '\n' [' '] s := by
       simp only [List.mem_cons, not_or]
       exact ⟨fun h' => h h'.symm, ih⟩
 
+theorem mem_replaceChar (a c : Char) (rep : Str) : ∀ v : Str, c ∈ replaceChar a rep v → c ∈ v ∨ c ∈ rep
+  | [], h => by simp [replaceChar] at h
+  | x :: r, h => by
+    simp only [replaceChar] at h
+    split at h
+    · rcases List.mem_append.1 h with h | h
+      · exact Or.inr h
+      · rcases mem_replaceChar a c rep r h with h | h
+        · exact Or.inl (List.mem_cons_of_mem _ h)
+        · exact Or.inr h
+    · rcases List.mem_cons.1 h with h | h
+      · exact Or.inl (by rw [h]; exact List.mem_cons_self)
+      · rcases mem_replaceChar a c rep r h with h | h
+        · exact Or.inl (List.mem_cons_of_mem _ h)
+        · exact Or.inr h
+
+theorem not_mem_replaceChar (a : Char) (rep : Str) (ha : a ∉ rep) : ∀ v : Str, a ∉ replaceChar a rep v
+  | [] => by simp [replaceChar]
+  | x :: r => by
+    simp only [replaceChar]
+    split
+    · intro h
+      rcases List.mem_append.1 h with h | h
+      · exact ha h
+      · exact not_mem_replaceChar a rep ha r h
+    · rename_i hx
+      intro h
+      rcases List.mem_cons.1 h with h | h
+      · exact hx h.symm
+      · exact not_mem_replaceChar a rep ha r h
+
 theorem nl_not_mem_troffEscapeArg (s : Str) : '\n' ∉ troffEscapeArg s := by
   unfold troffEscapeArg
+  intro h0
+  have h : '\n' ∈ troffEscape (replaceChar '\n' [' '] s) := by
+    rcases mem_replaceChar _ _ _ _ h0 with h | h
+    · exact h
+    · exact absurd h (by decide)
+  revert h
   rw [troffEscape_eq]
   intro h
   rcases mem_guardGo _ _ _ h with h | h | h
